@@ -181,20 +181,24 @@ class FunctionDefinition(Taggable):
             inp for inp in mapper(make_dict_of_named_arrays(self.returns))
             if isinstance(inp, Placeholder)]
 
-        placeholders: set[Placeholder] = set()
+        # The gatherer lists every placeholder *object* once. A parameter must be
+        # referred to through a single object, whether or not a second one
+        # compares equal to it (an unequal one -- other shape, dtype or tags --
+        # would otherwise be accepted and one of the two picked by set order).
+        placeholders: dict[str, Placeholder] = {}
         for pl in list_of_placeholders:
             if pl.name not in self.parameters:
                 # FIXME: Need a way to check for *any* captured arrays, not just
                 # placeholders
                 raise ValueError(
                     f"Found non-argument placeholder '{pl}' in function definition.")
-            if pl in placeholders:
+            if pl.name in placeholders:
                 raise ValueError(
                     f"Duplicated placeholder for argument '{pl.name}' in "
                     "function definition.")
-            placeholders.add(pl)
+            placeholders[pl.name] = pl
 
-        return constantdict({pl.name: pl for pl in placeholders})
+        return constantdict(placeholders)
 
     def get_placeholder(self, name: str) -> Placeholder:
         """
